@@ -97,7 +97,11 @@ ODelName(F, st, x) == R(Upd(F, st, x, [st.ent[x] EXCEPT !.name = "", !.tk = ""])
 ODelClass(F, st, x) == R(st, "KeyError", "")
 \* e.pop(k): the value, and the key is gone.  (The worldspawn keeps its class.)
 OPopName(F, st, x) == R(ODelName(F, st, x).s, "", st.ent[x].name)
-OPopClass(F, st, x) ==
+\* pop('classname'): the design refuses it exactly like `del e['classname']` (a classname can
+\* never be removed).  OPopClassRemove is the other behaviour the property tolerates - the class
+\* really goes away and the index follows; the trace validator accepts either.
+OPopClass(F, st, x) == R(st, "KeyError", "")
+OPopClassRemove(F, st, x) ==
     IF st.ent[x].spawn THEN R(st, "any", st.ent[x].cls)
     ELSE R(Upd(F, st, x, [st.ent[x] EXCEPT !.cls = ""]), "", st.ent[x].cls)
 \* e.clear(): no keys left; c is the class it ends up with ("" as the code does, or the
